@@ -422,9 +422,45 @@ def gen_inclass(rng, knobs=None):
         target_items.insert(rng.randint(0, len(target_items)), ["eh", ehid])
     spec["errors"] = spec["errors"] + spec.pop("errors_local", [])
     _attach_some_error_handlers(rng, spec)
+    if kn.domains:
+        domainize(rng, spec)
     if kn.avoid_known:
         repair_known(spec)
     return spec
+
+
+GUARD_POOLS = [
+    # mutually disjoint guard sets (distinct registrable domains); the right-most label is always a literal
+    ["app.s0.com", "{sub}.s1.com", "{*any}.s2.com", "{a}.{b}.s3.com"],
+    ["s0.dev", "api.s1.dev", "{sub}.api.s2.dev", "{*rest}.x.s3.dev"],
+    ["{tenant}.s0.io", "s1.io.", "{*any}.s2.io", "v1.{region}.s3.io"],
+    ["{p}x.s0.org", "www.s1.org", "{*w}.cdn.s2.org"],
+]
+
+
+def domainize(rng, spec):
+    """Domain guards are all-or-nothing: wrap every run of consecutive routes / nested blueprints of the root blueprint
+    into a `bp.domain(<guard>).nest(..)`; middlewares, observers and the root fallback stay where they are."""
+    pool = list(rng.choice(GUARD_POOLS))
+    rng.shuffle(pool)
+    out = []
+    run = None
+    nests = []
+    for it in spec["bp"]["items"]:
+        if it[0] in ("route", "nest"):
+            if run is None:
+                if len(nests) < len(pool):
+                    run = []
+                    nests.append(run)
+                    out.append(["nest", {"domain": pool[len(nests) - 1]}, {"items": run}])
+                else:
+                    run = nests[-1]
+            run.append(it)
+        else:
+            run = None
+            out.append(it)
+    spec["bp"]["items"] = out
+    spec["domains"] = pool[:len(nests)]
 
 
 def repair_known(spec):
